@@ -313,4 +313,44 @@ shedding 3/20 at cost 3 per MW is certified optimal by the multipliers (0, 3). -
 example : checkCert (build { buses := [⟨0, 5, 100000000⟩, ⟨2/5, 3, 0⟩], lines := [⟨0, 1, 1/4⟩], alpha := 0 })
     [0, 3/20, 1/4, 1/4, 0, 0] [0, 3] 0 0 = true := by decide +kernel
 
+/-! ### What is recorded as shed -/
+
+/-- **What is put on the energy-shed stacks is the solution with amounts up to α dropped** — whatever the optimal cost:
+the shortcut "report nothing when the optimal cost is 0 and no bus sheds more than α" changes nothing.  In particular load
+shed at zero interruption cost (optimal cost 0) is recorded. -/
+theorem reported_eq_threshold (I : Island) (x : List ℚ) (f : ℚ) (hlen : I.buses.length ≤ x.length) :
+    reported I x f = (x.take I.buses.length).map (fun s => if s > I.alpha then s else 0) := by
+  unfold reported
+  split_ifs with h
+  · rfl
+  · simp only [Bool.or_eq_true, decide_eq_true_eq, not_or, List.any_eq_true, not_exists, not_and] at h
+    have hl : (x.take I.buses.length).length = I.buses.length := by simp [List.length_take, hlen]
+    have hz : zeros I.buses.length = (x.take I.buses.length).map (fun _ => (0 : ℚ)) := by
+      unfold zeros; rw [List.map_const', hl]
+    rw [hz]
+    apply List.map_congr_left
+    intro s hs
+    have := h.2 s hs
+    simp only [gt_iff_lt] at this ⊢
+    rw [if_neg this]
+
+/-- … hence the recorded amount of every bus is within α of the solution's, and never above it (for a solution within its
+bounds, `shed_within_bounds`): the recorded amounts satisfy the documented problem within the documented slack. -/
+theorem reported_close (I : Island) (x : List ℚ) (f : ℚ) (hlen : I.buses.length ≤ x.length) (ha : 0 ≤ I.alpha)
+    (j : ℕ) (hj : j < (x.take I.buses.length).length) (h0 : 0 ≤ (x.take I.buses.length)[j]) :
+    ∃ hj' : j < (reported I x f).length,
+      (reported I x f)[j] ≤ (x.take I.buses.length)[j] ∧ (x.take I.buses.length)[j] - I.alpha ≤ (reported I x f)[j] ∧
+      0 ≤ (reported I x f)[j] := by
+  rw [reported_eq_threshold I x f hlen]
+  refine ⟨by simpa using hj, ?_⟩
+  simp only [List.getElem_map]
+  split_ifs with h
+  · exact ⟨le_refl _, by linarith, h0⟩
+  · exact ⟨h0, by linarith [not_lt.mp h], le_refl _⟩
+
+/-- Non-vacuity: bus 1 has interruption cost 0 and sheds 1/25 behind a line limit; the optimal cost is 0 and the amount is
+recorded. -/
+example : reported { buses := [⟨0, 1, 100000000⟩, ⟨1/20, 0, 0⟩, ⟨1/50, 3, 0⟩], lines := [⟨0, 1, 3/100⟩, ⟨1, 2, 1⟩], alpha := 1/10000 }
+    [0, 1/25, 0, 3/100, 1/50, 3/100, 0, 0, 0] 0 = [0, 1/25, 0] := by decide +kernel
+
 end Relsad.C03
